@@ -204,3 +204,55 @@ def c14(ck):
     ck.exhaustive = True
     ck.trace("ctrl", "ctrl", ["-n", q(ck, 1500, 30000)], "TraceCodec", "TraceCodec.cfg", ["InvC14", "InvC03"])
     ck.assumptions += ["the harness compares the two session-id bytes with its loop variable when summarising the session-id sweep"]
+
+
+# ---------------------------------------------------------------------------------------------- C16 / C09 / C12
+ITEMS_NOTE = ("the projection (zz_verif.go) is trusted to report the stored representation; float texts and roundings "
+              "come from Go's strconv / float32 conversion in the harness")
+
+
+@check("C16", design_ref="4 C16",
+       technique="TLA+ item algebra (Vars, Size, encodable) as oracle; trace validation of all four observers of random templates and messages",
+       text="Items.tla defines the variable list, size and encodability of an item tree declaratively; every recorded Variables(), Size(), "
+            "ToBytes() and String() of random templates (variables in every position, nested ellipses) and of messages built on them is "
+            "checked by TLC against the representation-level projection: each name once, in the order of the words of the printed form, bytes "
+            "iff no variable (and, for messages, decided wait bit and session id), size = number of elements.",
+       note=ITEMS_NOTE + "; the order clause is checked on the real printed text (words between blanks and angle brackets), independent of the printer model")
+def c16(ck):
+    ck.rule.append("random item trees to depth 4 (all 14 formats, list-level variables, array variables, ASCII variables with bounds, "
+                   "numbered ellipses) and messages on them; non-trivial = has at least one variable; distinct by projection")
+    ck.trace("snap", "snap", ["-n", q(ck, 1500, 30000)], "TraceItems", "TraceItems.cfg", ["InvC16"], agree=["InvAgreeC16"],
+             nontrivial=lambda e: len(e.get("vars", [])) > 0, key=lambda e: json.dumps(e.get("abs"), sort_keys=True))
+    ck.assumptions.append(ITEMS_NOTE)
+
+
+@check("C09", design_ref="4 C09",
+       technique="TLA+ declarative substitution Subst as oracle; trace validation of real FillVariables (once, in random steps) against direct construction",
+       text="Items.tla defines substitution and its refusal condition; for random ellipsis-free templates, random assignments (with unmentioned "
+            "variables, unknown keys and out-of-domain values) and random ordered partitions into up to four successive fills, TLC checks that "
+            "filling once, filling in steps and constructing directly give the same projection, printed form, bytes, variable list and size, "
+            "equal to Subst, and that refusals coincide with the specification's domain rule.",
+       note=ITEMS_NOTE)
+def c09(ck):
+    ck.rule.append("random templates to depth 4 x random assignments x random splits into 1..4 fills; about one case in five carries an "
+                   "out-of-domain value; non-trivial = template has a variable that sigma mentions; distinct by (template, sigma)")
+    ck.trace("fill", "fill", ["-n", q(ck, 1500, 30000)], "TraceItems", "TraceItems.cfg", ["InvC09"],
+             nontrivial=lambda e: len(e.get("tmpl", {}).get("vars", [])) > 0,
+             key=lambda e: json.dumps([e.get("tmpl", {}).get("abs"), e.get("sigma")], sort_keys=True))
+    ck.assumptions.append(ITEMS_NOTE)
+
+
+@check("C12", design_ref="4 C12",
+       technique="TLA+ domain rules (bignum layer) as oracle; trace validation of real factory calls and fills at and beyond every boundary in every accepted Go type",
+       text="The specification states, with its own unbounded arithmetic, which mathematical values each format holds, which names, ellipsis "
+            "placements, ASCII bounds and message headers are valid; every factory is called with values at, next to and far beyond every "
+            "power-of-two boundary in every Go integer type that can hold them, with boundary floats, binary strings, names, bounds and headers; "
+            "TLC checks refusal iff out of domain, and that stored, printed and encoded values equal the mathematical value passed.",
+       note=ITEMS_NOTE + "; rounding of a Go float to F4/F8 is delegated to Go's conversion")
+def c12(ck):
+    ck.rule.append("each boundary value 2^k-2..2^k+1 (k in 7,8,15,16,31,32,63), signed and unsigned, x 10 Go integer types x 11 numeric "
+                   "formats, first or second position, also through FillVariables; random 64-bit values; 24 boundary floats as float64/float32; "
+                   "binary strings; ASCII strings; 23 names x 6 positions; 10 bound pairs; 200 message headers; non-trivial = every event; "
+                   "distinct by content")
+    ck.trace("ctor", "ctor", ["-n", q(ck, 600, 20000)], "TraceItems", "TraceItems.cfg", ["InvC12"])
+    ck.assumptions.append(ITEMS_NOTE)
